@@ -4,13 +4,19 @@ UNITS = {
   'one2': dict(wrapper='w_cpq.cpp', mode='lcs', unroll=1, threads=thr('vp_thr_one', 2), cut=['_M_realloc_insert'], ptratomics=True, noinline=['6reheapEv','7heapifyEv'], allow_atomic=['_ZN3tbb6detail2d125concurrent_priority_queueIiSt4lessIiENS1_23cache_aligned_allocatorIiEEE6reheapEv','_ZN3tbb6detail2d125concurrent_priority_queueIiSt4lessIiENS1_23cache_aligned_allocatorIiEEE7heapifyEv']),
   'one3': dict(wrapper='w_cpq.cpp', mode='lcs', unroll=3, threads=thr('vp_thr_one', 3), cut=['_M_realloc_insert'], fallthrough=True),
 }
-UNITS['batch'] = dict(wrapper='w_batch.cpp', mode='seq', selftest=True)
+UNITS['batch'] = dict(wrapper='w_batch.cpp', mode='seq', selftest=True, ptratomics=True)
+UNITS['agg2'] = dict(wrapper='w_agg.cpp', mode='lcs', unroll=2, threads=thr('vp_thr_agg2', 2), ptratomics=True, fallthrough=True)
+UNITS['agg3'] = dict(wrapper='w_agg.cpp', mode='lcs', unroll=3, threads=thr('vp_thr_agg1', 3), ptratomics=True, fallthrough=True)
+UNITS['agg3x2'] = dict(wrapper='w_agg.cpp', mode='lcs', unroll=2, threads=thr('vp_thr_agg2', 3), ptratomics=True, fallthrough=True)
 HARNESSES = [
+  dict(name='agg_2t', unit='agg2', harness='h_agg.c', defines={'NT': 2, 'NOPS': 2, 'ROUNDS': 3}, scenarios=[{}], timeout=600, cbmc=['--unwind', '8'], desc='', bounds={}),
+  dict(name='agg_3t', unit='agg3', harness='h_agg.c', defines={'NT': 3, 'NOPS': 1, 'ROUNDS': 3}, scenarios=[{}], timeout=600, cbmc=['--unwind', '8'], desc='', bounds={}),
+  dict(name='agg_3t2', unit='agg3x2', harness='h_agg.c', defines={'NT': 3, 'NOPS': 2, 'ROUNDS': 3}, scenarios=[{}], timeout=900, cbmc=['--unwind', '8'], desc='', bounds={}),
   dict(name='batch_step', unit='batch', harness='h_batch.c', defines={'PART': 1},
-       scenarios=[{'NH': 2, 'B0': 2, 'B1': 1, 'B2': 2}], timeout=300, cbmc=['--unwind', '12', '--object-bits', '10'],
+       scenarios=[{'NH': 2, 'B0': 2, 'B1': 1, 'B2': 2}], timeout=300, cbmc=['--unwind', '6', '--object-bits', '10'],
        desc='', bounds={}),
   dict(name='heap_kernels', unit='batch', harness='h_batch.c', defines={'NMAX': 6},
-       scenarios=[{'PART': 2}, {'PART': 3}], timeout=300, cbmc=['--unwind', '12', '--object-bits', '10'],
+       scenarios=[{'PART': 2}, {'PART': 3}], timeout=300, cbmc=['--unwind', '6', '--object-bits', '10'],
        desc='', bounds={}),
   dict(name='lin_2t', unit='one2', harness='h_cpq.c', defines={'NT': 2, 'ROUNDS': 3},
        scenarios=[{'K0': 0, 'K1': 1, 'N0': 1}], timeout=600, cbmc=['--unwind', '20', '--object-bits', '12'],
